@@ -368,6 +368,22 @@ class Stepper:
             elif kind == 'check_restored':
                 if self.report.submission.main_code != self.text:
                     viol.append(V('C17|not-restored|later', 'main code differs from the original file after sections were stopped'))
+                else:
+                    # ... and what is reported about it afterwards carries the original file's line numbers
+                    try:
+                        ast.parse(self.text)
+                        parses = True
+                    except (SyntaxError, ValueError):
+                        parses = False
+                    if parses:
+                        from pedal.tifa.commands import tifa_analysis
+                        got = issue_lines(tifa_analysis())
+                        want = reference_tifa(self.text)
+                        self.restore_after_reference()
+                        self.flags.add('analysis-after-stop')
+                        if want is not None and got != want:
+                            viol.append(V('C17|line|after-stop|%s' % self.mode(), 'TIFA issues on the whole file after the sections were stopped are %r; the same file without sections gives %r'
+                                          % (sorted(got)[:6], sorted(want)[:6])))
         except Exception as e:
             tb = traceback.extract_tb(e.__traceback__)[-1]
             viol.append(V('C17|op-raises|%s|%s' % (kind, type(e).__name__), '%s raised %s: %s (%s:%s)' % (kind, type(e).__name__, e, tb.filename, tb.lineno)))
